@@ -1616,7 +1616,7 @@ unknown_stmt :
 yin_ext_def :
     token_unknown token_string token_curly_open {
         l := yylex.(*lexer)
-        $$ = l.builder.Extension($1, $2)
+        $$ = l.builder.Extension($1, tokenString($2))
         if chkErr(yylex, l.builder.LastErr) {
             goto ret1
         }
